@@ -6,7 +6,9 @@ Opaque to the model (validated by the streams only): urlsplit / urlunsplit, the 
 Repaired in /repo and kept as regression cases of stream iri-uri: F15a (`_decode_idna` now leaves a
 malformed `xn--` label as punycode, c7898ed - IDNA is opaque here), F15b (`[` and `]` are now in the
 keep-quoted set of the userinfo, 319c4e1 - stated in `keep_tables_cover_reserved`).
-Known finding F15c (EnvironBuilder: urlsplit drops TAB/CR/LF) is outside the model (urlsplit opaque).
+Known findings with a negation witness below: F15c (`environ_path_full_false`: urlsplit inside
+EnvironBuilder drops TAB/CR/LF), F15d (`environ_url_full_false`: `get_current_url` leaves a literal
+`%XX` of the unquoted path unquoted).
 
 All theorems listed in DESIGN.md for C15 (P0 and P1) are proved below; nothing is left OPEN.
 -/
@@ -45,6 +47,15 @@ theorem iri_safe_sets_respect_delimiters :
     Gen.UrlTables.iriQuerySafe.contains '#' = false ∧
     (∀ c ∈ ['/', '?', '#', '@', ':'], Gen.UrlTables.iriUserSafe.contains c = false ∧
       Gen.UrlTables.iriPasswordSafe.contains c = false) := by decide
+
+/-- The safe sets `get_current_url` quotes the root path, the path and the query string with (AST,
+every run) do not let through the delimiter that would end the component: no `?` / `#` in a path,
+no `#` in the query - a decoded `?` in `Request.path` is re-quoted in `Request.url`. -/
+theorem current_url_safe_sets_respect_delimiters :
+    (∀ s ∈ [Gen.UrlTables.curRootSafe, Gen.UrlTables.curPathSafe],
+      s.contains '?' = false ∧ s.contains '#' = false) ∧
+    Gen.UrlTables.curQuerySafe.contains '#' = false := by
+  decide
 
 /-- `iri_to_uri` yields pure ASCII: every quoted component for every input, and the whole 5-tuple
 handed to `urlunsplit` when the scheme and the (IDNA-encoded, opaque) host are ASCII. -/
@@ -212,6 +223,16 @@ CR, LF), so `Request.path` is `"/ab"`. -/
 theorem environ_path_full_false :
     (((builderEnviron plainOpaque "/a\tb".toList "http://localhost/".toList []).bind
       (requestView plainOpaque)).toOption.map (fun r => r.path)) = some "/ab".toList := by decide
+
+/-- **Known finding F15d, as a theorem about the model**: those sets also contain `%`, although
+`root_path` and `path` are already unquoted at that point - so a literal `%41` in the path
+(request target `/%2541`) is left alone by `get_current_url` and read as an escape by the
+`uri_to_iri` that follows: `Request.path` is `"/%41"` but `Request.url` is `"http://localhost/A"`.
+The reconstructed URL does not denote the request's path. -/
+theorem environ_url_full_false :
+    (((builderEnviron plainOpaque "/%2541".toList "http://localhost/".toList []).bind
+      (requestView plainOpaque)).toOption.map (fun r => (r.path, r.url)))
+      = some ("/%41".toList, "http://localhost/A".toList) := by decide
 
 /-- `%` (0x25) and every C0 control, SP and DEL stay quoted in every component of `uri_to_iri`, and
 each component keeps its own delimiters quoted (tables evaluated from the live compiled patterns):
